@@ -431,6 +431,13 @@ def run_shard(ctx):
             cont, ck = gen.view_form(rng, np.array(x, dtype=float))
         pc, pk = period_container(rng, per)
         xi_arg = 0 if (xi == 0.0 and rng.random() < 0.5) else xi
+        # scalar forms of the step and the damping: numpy scalars and (mutable) 0-d arrays, which must come back unchanged
+        dt_float = float(dt)
+        r_dt = rng.random()
+        if kind in (0, 1, 2) and r_dt < 0.12:
+            dt = [np.float64(dt), np.array(float(dt)), np.array(float(dt))][int(rng.integers(3))]
+            if xi_arg != 0 and rng.random() < 0.5:
+                xi_arg = np.array(float(xi))
         dig0 = (core.digest(np.asarray(cont)), core.digest(np.asarray(pc)))
         nontriv = bool(np.any(np.asarray(cont, dtype=float) != 0))
         ctx.case(core.digest(np.asarray(cont, dtype=float), dt, np.asarray(per, dtype=float), xi, kind, pk), nontrivial=nontriv,
@@ -475,7 +482,8 @@ def run_shard(ctx):
             ctx.exception('spectra.finite+nonneg+shape',
                           _wit(fn=['pseudo', 'true', 'object', 'uke', 'input_energy'][kind], motion=np.asarray(cont), motion_container=type(cont).__name__,
                                dt=dt, periods=np.asarray(per), periods_container=pk, xi=xi), e)
-        ctx.check((core.digest(np.asarray(cont)), core.digest(np.asarray(pc))) == dig0, 'arguments-unchanged',
+        ctx.check((core.digest(np.asarray(cont)), core.digest(np.asarray(pc))) == dig0 and float(dt) == dt_float
+                  and float(xi_arg) == xi, 'arguments-unchanged',
                   lambda: _wit(fn='purity', motion=np.asarray(cont), dt=dt, periods=np.asarray(per), xi=xi),
                   'record or period container modified by the call(s)')
     ctx.note('monitored_calls', dict(attach.CALLS))
